@@ -175,7 +175,11 @@ def gen_typed(rng, exotic=True, with_openapi_friendly=False):
             mk.append(N("%d\n%s" % (rng.choice([200, 201, 400]), B())))
             if rng.random() < 0.3:
                 mk.append(N("500 empty"))
-            blocks.append(N("%s /m%d/{key}/x" % (m, i), mk))
+            pnames = rng.sample(["key", "KEY", "Key", "id", "ID", "k_1", "a-b", "x"], rng.randint(1, 3))
+            if rng.random() < 0.4 and not any(k.text.startswith("Path") for k in mk):
+                defined = rng.sample(pnames, rng.randint(1, len(pnames)))
+                mk.insert(0, N("Path\n{\n" + ",\n".join('  "%s": %d' % (pn, j) for j, pn in enumerate(defined)) + "\n}"))
+            blocks.append(N("%s /m%d/%s/x" % (m, i, "/s/".join("{%s}" % pn for pn in pnames)), mk))
         else:
             kids = [N("Protocol json-rpc-2.0")]
             for j in range(rng.randint(1, 2)):
